@@ -168,7 +168,7 @@ func cmdCheck(args []string) int {
 		}
 	}
 	genS := time.Since(t0).Seconds() - loadS
-	cfg := solveConfig{dir: filepath.Join(os.TempDir(), fmt.Sprintf("govc-%d", os.Getpid())), timeoutS: 20, workers: 12, keepFiles: *keep}
+	cfg := solveConfig{dir: filepath.Join(os.TempDir(), fmt.Sprintf("govc-%d", os.Getpid())), timeoutS: 20, workers: 14, keepFiles: *keep}
 	if *tier == "thorough" {
 		cfg.timeoutS = 60
 		cfg.confirm = true
@@ -185,7 +185,7 @@ func cmdCheck(args []string) int {
 		cfg.timeoutS = *timeout
 	}
 	tSolve := time.Now()
-	results := solveAll(e.prelude(), frs, lemmas, cfg)
+	results := solveAll(e.prelude(), e.opaqueDefs, frs, lemmas, cfg)
 	if *verbose {
 		fmt.Printf("timing: load %.1fs, generate %.1fs, solve %.1fs (wall)\n", loadS, genS, time.Since(tSolve).Seconds())
 		sort.Slice(results, func(i, j int) bool { return results[i].TimeS > results[j].TimeS })
@@ -194,6 +194,7 @@ func cmdCheck(args []string) int {
 		}
 	}
 	rep := buildReport(e, frs, results, props, *tier, seed, *verif, time.Since(t0).Seconds(), loadS, genS, *updBase, *verbose)
+	rep.partial = *only != ""
 	code := rep.emit(*verif, !*noEvidence, *verbose)
 	if !*keep && code == 0 {
 		os.RemoveAll(cfg.dir)
